@@ -3,8 +3,7 @@
    dictionary specification (keys -> blobs, committed locations -> keys) and ends in a file system related to the
    final dictionary state by the abstraction relation R.
    Proofs: L6_Conc/SeqRefine.v.  Side conditions (both needed, see the counterexamples in SeqRefine.v):
-   locs_ok (committed locations prefix-free; fetch_paths asked about a location strictly below data that is not a
-   directory of the data tree) and stored_ok (sync_paths only points locations at keys stored earlier). *)
+   locs_ok (committed locations prefix-free; fetch_paths asked about a location strictly below data) and stored_ok (sync_paths only points locations at keys stored earlier). *)
 From Coq Require Import List String.
 From DDS Require Import Base.Bytes L6_Conc.FsOps L6_Conc.LocalProgs L6_Conc.ConcSpec L6_Conc.CrashProofs L6_Conc.SeqRefine.
 Import ListNotations.
